@@ -417,3 +417,40 @@ func FillContent(t *rapid.T, im *Image, o ImageOpts) {
 	}
 	im.Seed = rapid.Uint64().Draw(t, "seed")
 }
+
+// BigGeometry draws sizes around the places where a dimension or the pixel count needs one
+// more byte or bit than before: one side from 255..257, 511..513, 1023..1025, 4095..4097 with
+// a short other side, or both sides between 250 and 300 (more than 2^16 samples).
+func BigGeometry() *rapid.Generator[[2]int] {
+	return rapid.Custom(func(t *rapid.T) [2]int {
+		long := rapid.SampledFrom([]int{255, 256, 257, 300, 511, 512, 513, 1023, 1024, 1025, 4095, 4096, 4097}).Draw(t, "long")
+		short := rapid.IntRange(1, 9).Draw(t, "short")
+		switch rapid.IntRange(0, 4).Draw(t, "shape") {
+		case 0:
+			return [2]int{long, short}
+		case 1:
+			return [2]int{short, long}
+		case 2:
+			if long > 600 {
+				long = 256 + long%45
+			}
+			return [2]int{long, 250 + rapid.IntRange(0, 50).Draw(t, "other")}
+		case 3:
+			return [2]int{min(long, 1025), rapid.IntRange(10, 40).Draw(t, "mid")}
+		}
+		return [2]int{rapid.IntRange(10, 40).Draw(t, "mid"), min(long, 1025)}
+	})
+}
+
+// Resize gives the image a new geometry; literal sample lists are dropped in favour of the
+// recipe of the same class.
+func (im *Image) Resize(w, h int) {
+	im.W, im.H = w, h
+	im.Pix = nil
+	if len(im.Class) > 4 && im.Class[:4] == "lit-" {
+		im.Class = im.Class[4:]
+	}
+	if im.Seed == 0 {
+		im.Seed = uint64(w*65537 + h)
+	}
+}
